@@ -17,7 +17,7 @@ ID = "C01"
 LEVEL = "exploration"
 DESIGN_REF = "DESIGN.md section 3, C01"
 RULE = (
-    "full product true orientation x searched rotation set x scale x interpolation order x model x loader kind x box; "
+    "full product true orientation x searched rotation set x scale x interpolation order x model x box for the single loader, loader kinds crossed with orientation x rotation set x scale (order 3, ZNCC and PCC, one box); "
     "each case aligns one molecule per (perturbation m, searched rotation q) pair - all of them aimed at the same planted "
     "particle; non-trivial molecules = m != 0 and q != identity (the class where frame mistakes show); distinct = distinct case tuples"
 )
@@ -78,6 +78,10 @@ def cases(tier, seed):
                                         continue
                                     if qs == "zx20" and not (model == "ZNCC" and order == 3):
                                         continue
+                                if tier == "thorough" and kind != "single" and not (order == 3 and model in ("ZNCC", "PCC") and tuple(box) == (16, 16, 16)):
+                                    # thorough: the full product for the single-tomogram loader; the other six loader kinds share its
+                                    # per-molecule code and are crossed with every orientation, rotation set and scale on one box
+                                    continue
                                 if kind == "notemplate" and qs != "z30":
                                     continue
                                 out.append({"box": list(box), "Rstar": rs, "qset": qs, "scale": scale, "order": order,
